@@ -147,7 +147,7 @@ Definition scarcity (dtot prodv : vec) (f : nat) : Qc :=
 Definition overprod1 (a z : Qc) : Qc :=
   let chg := (a_max P - a) * z * a_rate P
              + (if Qceqb z 0 then (a_base P - a) * a_rate P else 0) in
-  qmax 1 (a + chg).
+  qmin (a_max P) (qmax 1 (a + chg)).
 Definition overprod (alpha dtot prodv : vec) : vec :=
   tab N (fun f => overprod1 (getv alpha f) (scarcity dtot prodv f)).
 
